@@ -3458,8 +3458,10 @@ fn new(kind: OpKind, packet_id: u16, generation: u32) -> (r: Self)
 
 /// representation invariant of a Session between operations
 pub open spec fn sess_inv(s: Session) -> bool {
-    sd_inv(s.data) && reader_inv(s.packet_reader)
+    sd_inv(s.data) && reader_inv(s.packet_reader) && rt_ok(s.runtime)
 }
+/// the keep-alive interval comes from a u16 number of seconds (ConfigBuilder / Server Keep Alive)
+pub open spec fn rt_ok(rt: RuntimeState) -> bool { rt.keepalive_interval.ticks() <= 65535 * 1_000_000 }
 
 /// C18: what a handle reports, as a function of the session state
 pub open spec fn status_spec(s: Session, op: Op) -> OpStatus {
@@ -3549,5 +3551,632 @@ fn is_invalidated(&self, op: &Op) -> (r: bool)
 
 } // verus!
 
+// ======================================================================================
+// 60_drive: src/mqtt_client/session/drive.rs (+ handle_disconnect from handshake.rs / mod.rs)
+// ======================================================================================
+verus! {
+
+#[derive(Copy, Clone)]
+pub enum FlushedPacket {
+    Control(ControlAction),
+    Release(u16),
+    Retained(u16),
+}
+pub struct WriteStep<'a> {
+    pub packet: FlushedPacket,
+    pub bytes: &'a [u8],
+    pub written: usize,
+    pub len: usize,
+}
+pub enum PreparedStep<'a> {
+    Write(WriteStep<'a>),
+    Flush(FlushedPacket),
+    Done,
+}
+#[derive(Copy, Clone)]
+pub enum Progress {
+    Idle,
+    Advanced,
+    Inbound(usize),
+}
+
+/// the session behind a connection handle
+pub open spec fn cs<'a, 'buf>(c: Connection<'a, 'buf>) -> Session<'buf> { *c.session }
+pub open spec fn conn_inv(c: Connection) -> bool { sess_inv(cs(c)) }
+
+/// o1 is o0 after `arm_replay`: every entry fresh again, DUP marked, nothing added or removed
+pub open spec fn armed(o1: Outbound, o0: Outbound) -> bool {
+    &&& o1.pending_control@.len() == o0.pending_control@.len()
+    &&& forall|i: int| 0 <= i < o0.pending_control@.len() ==> (#[trigger] o1.pending_control@[i]) == fresh_ctl(o0.pending_control@[i])
+    &&& o1.pending_release@.len() == o0.pending_release@.len()
+    &&& forall|i: int| 0 <= i < o0.pending_release@.len() ==> (#[trigger] o1.pending_release@[i]) == fresh_rel(o0.pending_release@[i])
+    &&& o1.retained@.len() == o0.retained@.len()
+    &&& forall|i: int| 0 <= i < o0.retained@.len() ==> (#[trigger] o1.retained@[i]) == fresh_ret(o0.retained@[i])
+    &&& o1.used == o0.used && bv(o1).len() == bv(o0).len()
+    &&& forall|k: int| 0 <= k < bv(o0).len() && !is_first_byte(o0.retained@, k) ==> #[trigger] bv(o1)[k] == bv(o0)[k]
+    &&& forall|k: int| 0 <= k < bv(o0).len() && is_first_byte(o0.retained@, k) ==> #[trigger] bv(o1)[k] == bv(o0)[k] | 8u8
+}
+pub proof fn lemma_armed_w6(o1: Outbound, o0: Outbound)
+    requires armed(o1, o0), w6(o0)
+    ensures w6(o1)
+{
+    reveal(w6s);
+    assert(ids_of(o1) =~= ids_of(o0)) by {
+        assert forall|i: int| 0 <= i < ids_of(o0).len() implies ids_of(o1)[i] == ids_of(o0)[i] by {
+            if i < o0.retained@.len() { assert(o1.retained@[i] == fresh_ret(o0.retained@[i])); }
+            else { let j = i - o0.retained@.len(); assert(o1.pending_release@[j] == fresh_rel(o0.pending_release@[j])); }
+        }
+    }
+}
+
+/// the bytes `perform_outbound_step` sends for a step
+pub open spec fn step_bytes(o: Outbound, s: OutboundStep) -> Seq<u8> {
+    match s {
+        OutboundStep::Control(c) => ctl_bytes(c.action),
+        OutboundStep::Release(r) => rel_bytes(r.packet_id, r.reason),
+        OutboundStep::Retained(r) => bv(o).subrange(r.offset as int, r.offset + r.len),
+    }
+}
+pub open spec fn step_state(s: OutboundStep) -> SendState {
+    match s { OutboundStep::Control(c) => c.state, OutboundStep::Release(r) => r.state, OutboundStep::Retained(r) => r.state }
+}
+/// wire' = wire ++ pkt[from .. from+d] for some 0 <= d with from+d <= |pkt| (d = |wire'| - |wire|)
+pub open spec fn wire_ext(ow: Seq<u8>, nw: Seq<u8>, pkt: Seq<u8>, from: int) -> bool {
+    let d = nw.len() - ow.len();
+    &&& d >= 0
+    &&& from + d <= pkt.len()
+    &&& nw =~= ow + pkt.subrange(from, from + d)
+}
+
+pub open spec fn flushed_tracked(o: Outbound, p: FlushedPacket) -> bool {
+    match p {
+        FlushedPacket::Control(a) => has_ctl(o.pending_control@, a),
+        FlushedPacket::Release(id) => has_rel(o.pending_release@, id),
+        FlushedPacket::Retained(id) => has_ret(o.retained@, id),
+    }
+}
+
+/// o1 is o0 with the send state of the (first) entry named by `p` set to sw(written, len)
+pub open spec fn written_upd(o1: Outbound, o0: Outbound, p: FlushedPacket, written: usize, len: usize) -> bool {
+    &&& o1.used == o0.used && bv(o1) == bv(o0)
+    &&& match p {
+        FlushedPacket::Control(a) => o1.retained@ == o0.retained@ && o1.pending_release@ == o0.pending_release@
+            && o1.pending_control@ == o0.pending_control@.update(first_ctl(o0.pending_control@, a), PendingControl { action: a, state: sw(written, len) }),
+        FlushedPacket::Release(id) => o1.retained@ == o0.retained@ && o1.pending_control@ == o0.pending_control@
+            && o1.pending_release@ == o0.pending_release@.update(first_rel(o0.pending_release@, id),
+                PendingRelease { state: sw(written, len), ..o0.pending_release@[first_rel(o0.pending_release@, id)] }),
+        FlushedPacket::Retained(id) => o1.pending_control@ == o0.pending_control@ && o1.pending_release@ == o0.pending_release@
+            && o1.retained@ == o0.retained@.update(first_ret(o0.retained@, id),
+                RetainedPacket { state: sw(written, len), ..o0.retained@[first_ret(o0.retained@, id)] }),
+    }
+}
+/// changing only send states keeps all identifiers
+pub proof fn lemma_written_w6(o1: Outbound, o0: Outbound, p: FlushedPacket, written: usize, len: usize)
+    requires written_upd(o1, o0, p, written, len), w6(o0), flushed_tracked(o0, p)
+    ensures w6(o1)
+{
+    reveal(w6s);
+    lemma_first_ret_bounds(o0.retained@, match p { FlushedPacket::Retained(id) => id, _ => 0 });
+    lemma_first_rel_bounds(o0.pending_release@, match p { FlushedPacket::Release(id) => id, _ => 0 });
+    assert(ids_of(o1) =~= ids_of(o0));
+}
+
+pub open spec fn reader_same(a: PacketReader, b: PacketReader) -> bool {
+    a.read_bytes == b.read_bytes && a.packet_length == b.packet_length && rbuf(a) == rbuf(b)
+}
+/// runtime fields that keep-alive bookkeeping never touches
+pub open spec fn rt_frame_ka(a: RuntimeState, b: RuntimeState) -> bool {
+    a.session_resumed == b.session_resumed && a.keepalive_interval == b.keepalive_interval && a.send_quota == b.send_quota
+        && a.max_send_quota == b.max_send_quota && a.maximum_packet_size == b.maximum_packet_size && a.max_qos == b.max_qos
+}
+/// o1 is o0 after the flush of `p` completed: a control entry is dropped, a PUBREL / retained packet becomes Sent
+pub open spec fn flushed_upd(o1: Outbound, o0: Outbound, p: FlushedPacket) -> bool {
+    &&& o1.used == o0.used && bv(o1) == bv(o0)
+    &&& match p {
+        FlushedPacket::Control(a) => o1.retained@ == o0.retained@ && o1.pending_release@ == o0.pending_release@
+            && o1.pending_control@ =~= o0.pending_control@.remove(first_ctl(o0.pending_control@, a)),
+        FlushedPacket::Release(id) => o1.retained@ == o0.retained@ && o1.pending_control@ == o0.pending_control@
+            && o1.pending_release@ == o0.pending_release@.update(first_rel(o0.pending_release@, id),
+                PendingRelease { state: SendState::Sent, ..o0.pending_release@[first_rel(o0.pending_release@, id)] }),
+        FlushedPacket::Retained(id) => o1.pending_control@ == o0.pending_control@ && o1.pending_release@ == o0.pending_release@
+            && o1.retained@ == o0.retained@.update(first_ret(o0.retained@, id),
+                RetainedPacket { state: SendState::Sent, ..o0.retained@[first_ret(o0.retained@, id)] }),
+    }
+}
+pub proof fn lemma_flushed_w6(o1: Outbound, o0: Outbound, p: FlushedPacket)
+    requires flushed_upd(o1, o0, p), w6(o0), flushed_tracked(o0, p)
+    ensures w6(o1)
+{
+    reveal(w6s);
+    lemma_first_ret_bounds(o0.retained@, match p { FlushedPacket::Retained(id) => id, _ => 0 });
+    lemma_first_rel_bounds(o0.pending_release@, match p { FlushedPacket::Release(id) => id, _ => 0 });
+    assert(ids_of(o1) =~= ids_of(o0));
+}
+
+pub open spec fn step_packet(s: OutboundStep) -> FlushedPacket {
+    match s {
+        OutboundStep::Control(c) => FlushedPacket::Control(c.action),
+        OutboundStep::Release(r) => FlushedPacket::Release(r.packet_id),
+        OutboundStep::Retained(r) => FlushedPacket::Retained(r.packet_id),
+    }
+}
+pub proof fn lemma_idx_bounds(o: Outbound, ip: bool)
+    ensures 0 <= ctl_idx(o.pending_control@, ip) <= o.pending_control@.len(),
+        0 <= rel_idx(o.pending_release@, ip) <= o.pending_release@.len(),
+        0 <= ret_idx(o.retained@, ip) <= o.retained@.len(),
+        ctl_idx(o.pending_control@, ip) < o.pending_control@.len() ==> prio(o.pending_control@[ctl_idx(o.pending_control@, ip)].state, ip),
+        rel_idx(o.pending_release@, ip) < o.pending_release@.len() ==> prio(o.pending_release@[rel_idx(o.pending_release@, ip)].state, ip),
+        ret_idx(o.retained@, ip) < o.retained@.len() ==> prio(o.retained@[ret_idx(o.retained@, ip)].state, ip),
+{
+    lemma_ctl_idx_b(o.pending_control@, ip); lemma_rel_idx_b(o.pending_release@, ip); lemma_ret_idx_b(o.retained@, ip);
+}
+pub proof fn lemma_ctl_idx_b(c: Seq<PendingControl>, ip: bool)
+    ensures 0 <= ctl_idx(c, ip) <= c.len(), ctl_idx(c, ip) < c.len() ==> prio(c[ctl_idx(c, ip)].state, ip)
+    decreases c.len()
+{ if c.len() > 0 && !prio(c[0].state, ip) { let t = c.subrange(1, c.len() as int); lemma_ctl_idx_b(t, ip); if ctl_idx(t, ip) < t.len() { assert(t[ctl_idx(t, ip)] == c[ctl_idx(t, ip) + 1]); } } }
+pub proof fn lemma_rel_idx_b(c: Seq<PendingRelease>, ip: bool)
+    ensures 0 <= rel_idx(c, ip) <= c.len(), rel_idx(c, ip) < c.len() ==> prio(c[rel_idx(c, ip)].state, ip)
+    decreases c.len()
+{ if c.len() > 0 && !prio(c[0].state, ip) { let t = c.subrange(1, c.len() as int); lemma_rel_idx_b(t, ip); if rel_idx(t, ip) < t.len() { assert(t[rel_idx(t, ip)] == c[rel_idx(t, ip) + 1]); } } }
+pub proof fn lemma_ret_idx_b(c: Seq<RetainedPacket>, ip: bool)
+    ensures 0 <= ret_idx(c, ip) <= c.len(), ret_idx(c, ip) < c.len() ==> prio(c[ret_idx(c, ip)].state, ip)
+    decreases c.len()
+{ if c.len() > 0 && !prio(c[0].state, ip) { let t = c.subrange(1, c.len() as int); lemma_ret_idx_b(t, ip); if ret_idx(t, ip) < t.len() { assert(t[ret_idx(t, ip)] == c[ret_idx(t, ip) + 1]); } } }
+
+/// what `next_step` hands out names a tracked entry; under W6 it is the first entry with that key,
+/// it is never `Sent`, and a retained step carries that entry's offset and length
+pub proof fn lemma_step_tracked(o: Outbound, s: OutboundStep)
+    requires next_step_spec(o) == Some(s), wf(o), w6(o)
+    ensures flushed_tracked(o, step_packet(s)), !(step_state(s) is Sent),
+        s matches OutboundStep::Retained(r) ==> {
+            let k = first_ret(o.retained@, r.packet_id);
+            0 <= k < o.retained@.len() && o.retained@[k].offset == r.offset && o.retained@[k].len == r.len && o.retained@[k].state == r.state
+                && r.offset + r.len <= bv(o).len() && r.len >= 1 && state_ok(r.state, r.len as int)
+        },
+        s matches OutboundStep::Release(r) ==> {
+            let k = first_rel(o.pending_release@, r.packet_id);
+            0 <= k < o.pending_release@.len() && o.pending_release@[k].reason == r.reason && o.pending_release@[k].state == r.state && state_ok(r.state, REL_LEN)
+        },
+        s matches OutboundStep::Control(c) ==> state_ok(c.state, ctl_len(c.action)),
+        bv(o).len() <= usize::MAX,
+{
+    reveal(wfs); reveal(w6s);
+    lemma_idx_bounds(o, true); lemma_idx_bounds(o, false);
+    let ip = step_for(o, true) is Some;
+    match s {
+        OutboundStep::Control(c) => {
+            let k = ctl_idx(o.pending_control@, ip);
+            assert(o.pending_control@[k].action == c.action);
+        },
+        OutboundStep::Release(r) => {
+            let k = rel_idx(o.pending_release@, ip);
+            assert(o.pending_release@[k].packet_id == r.packet_id);
+            lemma_first_rel_bounds(o.pending_release@, r.packet_id);
+            let f = first_rel(o.pending_release@, r.packet_id);
+            let n = o.retained@.len() as int;
+            assert(ids_of(o)[n + f] == r.packet_id && ids_of(o)[n + k] == r.packet_id);
+        },
+        OutboundStep::Retained(r) => {
+            let k = ret_idx(o.retained@, ip);
+            assert(o.retained@[k].packet_id == r.packet_id);
+            lemma_first_ret_bounds(o.retained@, r.packet_id);
+            let f = first_ret(o.retained@, r.packet_id);
+            assert(ids_of(o)[f] == r.packet_id && ids_of(o)[k] == r.packet_id);
+            assert(o.retained@[k].offset + o.retained@[k].len <= o.used);
+        },
+    }
+}
+
+/// recording write progress keeps the entry tracked, and a later flush of the same entry is the
+/// same as flushing the original entry
+pub proof fn lemma_written_then_flushed(o2: Outbound, o1: Outbound, o0: Outbound, p: FlushedPacket, written: usize, len: usize)
+    requires written_upd(o1, o0, p, written, len), flushed_tracked(o0, p),
+    ensures flushed_tracked(o1, p), flushed_upd(o2, o1, p) ==> flushed_upd(o2, o0, p)
+{
+    match p {
+        FlushedPacket::Control(a) => {
+            lemma_first_ctl_bounds(o0.pending_control@, a);
+            let k = first_ctl(o0.pending_control@, a);
+            assert(o1.pending_control@[k].action == a);
+                assert forall|j: int| 0 <= j < k implies (#[trigger] o1.pending_control@[j]).action != a by {
+                    assert(o1.pending_control@[j] == o0.pending_control@[j]);
+                    lemma_first_ctl_min(o0.pending_control@, a, j);
+                }
+            lemma_first_ctl(o1.pending_control@, a, k);
+            if flushed_upd(o2, o1, p) {
+                assert(o1.pending_control@.remove(k) =~= o0.pending_control@.remove(k));
+            }
+        },
+        FlushedPacket::Release(id) => {
+            lemma_first_rel_bounds(o0.pending_release@, id);
+            let k = first_rel(o0.pending_release@, id);
+            assert(o1.pending_release@[k].packet_id == id);
+                assert forall|j: int| 0 <= j < k implies (#[trigger] o1.pending_release@[j]).packet_id != id by {
+                    assert(o1.pending_release@[j] == o0.pending_release@[j]);
+                    lemma_first_rel_min(o0.pending_release@, id, j);
+                }
+            lemma_first_rel(o1.pending_release@, id, k);
+            if flushed_upd(o2, o1, p) {
+                assert(o2.pending_release@ =~= o0.pending_release@.update(k, PendingRelease { state: SendState::Sent, ..o0.pending_release@[k] }));
+            }
+        },
+        FlushedPacket::Retained(id) => {
+            lemma_first_ret_bounds(o0.retained@, id);
+            let k = first_ret(o0.retained@, id);
+            assert(o1.retained@[k].packet_id == id);
+                assert forall|j: int| 0 <= j < k implies (#[trigger] o1.retained@[j]).packet_id != id by {
+                    assert(o1.retained@[j] == o0.retained@[j]);
+                    lemma_first_ret_min(o0.retained@, id, j);
+                }
+            lemma_first_ret(o1.retained@, id, k);
+            if flushed_upd(o2, o1, p) {
+                assert(o2.retained@ =~= o0.retained@.update(k, RetainedPacket { state: SendState::Sent, ..o0.retained@[k] }));
+            }
+        },
+    }
+}
+pub proof fn lemma_first_ctl_bounds(c: Seq<PendingControl>, a: ControlAction)
+    ensures 0 <= first_ctl(c, a) <= c.len(), has_ctl(c, a) ==> first_ctl(c, a) < c.len() && c[first_ctl(c, a)].action == a,
+    decreases c.len()
+{
+    if c.len() > 0 && c[0].action != a {
+        let t = c.subrange(1, c.len() as int);
+        lemma_first_ctl_bounds(t, a);
+        if has_ctl(c, a) {
+            let i = choose|i: int| 0 <= i < c.len() && (#[trigger] c[i]).action == a;
+            assert(t[i - 1] == c[i]);
+            assert(has_ctl(t, a));
+            assert(t[first_ctl(t, a)] == c[first_ctl(t, a) + 1]);
+        }
+    }
+}
+pub proof fn lemma_first_ctl_min(c: Seq<PendingControl>, a: ControlAction, j: int)
+    requires 0 <= j < first_ctl(c, a), j < c.len()
+    ensures c[j].action != a
+    decreases c.len()
+{
+    if c.len() > 0 && c[0].action != a && j > 0 {
+        let t = c.subrange(1, c.len() as int);
+        lemma_first_ctl_min(t, a, j - 1);
+        assert(t[j - 1] == c[j]);
+    }
+}
+pub proof fn lemma_first_rel_min(c: Seq<PendingRelease>, id: u16, j: int)
+    requires 0 <= j < first_rel(c, id), j < c.len()
+    ensures c[j].packet_id != id
+    decreases c.len()
+{
+    if c.len() > 0 && c[0].packet_id != id && j > 0 {
+        let t = c.subrange(1, c.len() as int);
+        lemma_first_rel_min(t, id, j - 1);
+        assert(t[j - 1] == c[j]);
+    }
+}
+pub proof fn lemma_first_ret_min(c: Seq<RetainedPacket>, id: u16, j: int)
+    requires 0 <= j < first_ret(c, id), j < c.len()
+    ensures c[j].packet_id != id
+    decreases c.len()
+{
+    if c.len() > 0 && c[0].packet_id != id && j > 0 {
+        let t = c.subrange(1, c.len() as int);
+        lemma_first_ret_min(t, id, j - 1);
+        assert(t[j - 1] == c[j]);
+    }
+}
+
+impl<'buf> Session<'buf> {
+fn handle_disconnect(&mut self)
+    requires
+        sd_inv(old(self).data),
+    ensures
+        armed(final(self).data.outbound, old(self).data.outbound),
+        final(self).runtime.next_ping is None && final(self).runtime.ping_timeout is None && !final(self).runtime.session_resumed
+            && final(self).packet_reader.read_bytes == 0 && final(self).packet_reader.packet_length is None
+            && rbuf(final(self).packet_reader) == rbuf(old(self).packet_reader),
+        final(self).runtime.send_quota == old(self).runtime.send_quota && final(self).runtime.max_send_quota == old(self).runtime.max_send_quota
+            && final(self).runtime.maximum_packet_size == old(self).runtime.maximum_packet_size && final(self).runtime.max_qos == old(self).runtime.max_qos
+            && final(self).runtime.keepalive_interval == old(self).runtime.keepalive_interval
+            && sd_frame(final(self).data, old(self).data)
+            && final(self).data.pending_server_packet_ids@ == old(self).data.pending_server_packet_ids@,
+        rt_ok(old(self).runtime) ==> sess_inv(*final(self)),
+{
+
+        self.data.outbound.arm_replay();
+        self.runtime.reset_transport();
+        self.packet_reader.reset();
+    
+        proof { lemma_armed_w6(self.data.outbound, old(self).data.outbound); }
+
+}
+}
+
+impl<'a, 'buf> Connection<'a, 'buf> {
+fn handle_disconnect(&mut self)
+    requires
+        sd_inv(cs(*old(self)).data),
+    ensures
+        !final(self).live,
+        final(self).io == old(self).io && final(self).event == old(self).event,
+        armed(cs(*final(self)).data.outbound, cs(*old(self)).data.outbound),
+        cs(*final(self)).runtime.next_ping is None && cs(*final(self)).runtime.ping_timeout is None
+            && cs(*final(self)).packet_reader.read_bytes == 0 && cs(*final(self)).packet_reader.packet_length is None
+            && rbuf(cs(*final(self)).packet_reader) == rbuf(cs(*old(self)).packet_reader),
+        cs(*final(self)).runtime.send_quota == cs(*old(self)).runtime.send_quota && cs(*final(self)).runtime.max_send_quota == cs(*old(self)).runtime.max_send_quota
+            && cs(*final(self)).runtime.maximum_packet_size == cs(*old(self)).runtime.maximum_packet_size
+            && cs(*final(self)).runtime.keepalive_interval == cs(*old(self)).runtime.keepalive_interval
+            && sd_frame(cs(*final(self)).data, cs(*old(self)).data)
+            && cs(*final(self)).data.pending_server_packet_ids@ == cs(*old(self)).data.pending_server_packet_ids@,
+        rt_ok(cs(*old(self)).runtime) ==> conn_inv(*final(self)),
+{
+        self.live = false;
+        self.session.handle_disconnect();
+    }
+
+fn set_written(&mut self, packet: FlushedPacket, written: usize, len: usize)
+    requires
+        conn_inv(*old(self)),
+        flushed_tracked(cs(*old(self)).data.outbound, packet),
+        match packet {
+            FlushedPacket::Control(a) => len == ctl_len(a),
+            FlushedPacket::Release(id) => len == REL_LEN,
+            FlushedPacket::Retained(id) => len == cs(*old(self)).data.outbound.retained@[first_ret(cs(*old(self)).data.outbound.retained@, id)].len,
+        },
+    ensures
+        final(self).io == old(self).io && final(self).live == old(self).live && final(self).event == old(self).event
+            && cs(*final(self)).runtime == cs(*old(self)).runtime
+            && cs(*final(self)).packet_reader.read_bytes == cs(*old(self)).packet_reader.read_bytes
+            && cs(*final(self)).packet_reader.packet_length == cs(*old(self)).packet_reader.packet_length
+            && rbuf(cs(*final(self)).packet_reader) == rbuf(cs(*old(self)).packet_reader)
+            && sd_frame(cs(*final(self)).data, cs(*old(self)).data)
+            && cs(*final(self)).data.pending_server_packet_ids@ == cs(*old(self)).data.pending_server_packet_ids@,
+        written_upd(cs(*final(self)).data.outbound, cs(*old(self)).data.outbound, packet, written, len),
+        conn_inv(*final(self)),
+{
+        let out = &mut self.session.data.outbound;
+        let found = match packet {
+            FlushedPacket::Control(action) => out.set_control_written(action, written, len),
+            FlushedPacket::Release(packet_id) => out.set_release_written(packet_id, written, len),
+            FlushedPacket::Retained(packet_id) => out.set_retained_written(packet_id, written, len),
+        };
+        assert(found);
+    
+        proof { lemma_written_w6(self.session.data.outbound, old(self).session.data.outbound, packet, written, len); }
+
+}
+
+fn complete_flush(&mut self, packet: FlushedPacket, now: Instant)
+    requires
+        conn_inv(*old(self)),
+        flushed_tracked(cs(*old(self)).data.outbound, packet),
+    ensures
+        final(self).io == old(self).io && final(self).live == old(self).live && final(self).event == old(self).event
+            && reader_same(cs(*final(self)).packet_reader, cs(*old(self)).packet_reader)
+            && sd_frame(cs(*final(self)).data, cs(*old(self)).data)
+            && cs(*final(self)).data.pending_server_packet_ids@ == cs(*old(self)).data.pending_server_packet_ids@,
+        cs(*final(self)).runtime.ping_timeout == (if packet matches FlushedPacket::Control(ControlAction::PingReq)
+            { Some(instant_plus(now, Duration { t: Ghost((ROUND_TRIP_TIMEOUT_MS * 1000) as nat) })) } else { cs(*old(self)).runtime.ping_timeout }),
+        cs(*final(self)).runtime.next_ping == (if cs(*old(self)).runtime.keepalive_interval.ticks() / 1000 == 0 { None::<Instant> }
+            else { Some(Instant { t: Ghost((now.ticks() + send_interval_ms(cs(*old(self)).runtime.keepalive_interval.ticks() / 1000) * 1000) as nat) }) }),
+        rt_frame_ka(cs(*final(self)).runtime, cs(*old(self)).runtime),
+        flushed_upd(cs(*final(self)).data.outbound, cs(*old(self)).data.outbound, packet),
+        conn_inv(*final(self)),
+{
+        let runtime = &mut self.session.runtime;
+        let data = &mut self.session.data;
+        if matches!(packet, FlushedPacket::Control(ControlAction::PingReq)) {
+            runtime.ping_timeout = Some(now + Duration::from_millis(ROUND_TRIP_TIMEOUT_MS));
+        }
+        runtime.note_outbound_activity(now);
+        let found = match packet {
+            FlushedPacket::Control(action) => data.outbound.flush_control(action),
+            FlushedPacket::Release(packet_id) => data.outbound.flush_release(packet_id),
+            FlushedPacket::Retained(packet_id) => data.outbound.flush_retained(packet_id),
+        };
+        assert(found);
+    
+        proof { lemma_flushed_w6(self.session.data.outbound, old(self).session.data.outbound, packet); }
+
+}
+
+async fn flush_current(
+        &mut self,
+        packet: FlushedPacket,
+        now: Instant,
+    ) -> (r: Result<(), Error<IoErr>>)
+    requires
+        conn_inv(*old(self)),
+        flushed_tracked(cs(*old(self)).data.outbound, packet),
+    ensures
+        !old(self).live ==> r == Err::<(), Error<IoErr>>(Error::Disconnected) && final(self).io == old(self).io && *final(self).session == *old(self).session,
+        final(self).live ==> old(self).live,
+        final(self).io.wire@ == old(self).io.wire@ && final(self).io.inbound@ == old(self).io.inbound@,
+        r matches Err(e) ==> (e is Disconnected || e is Transport) && !final(self).live,
+        r is Ok ==> final(self).live && flushed_upd(cs(*final(self)).data.outbound, cs(*old(self)).data.outbound, packet)
+            && rt_frame_ka(cs(*final(self)).runtime, cs(*old(self)).runtime)
+            && cs(*final(self)).runtime.ping_timeout == (if packet matches FlushedPacket::Control(ControlAction::PingReq)
+                { Some(instant_plus(now, Duration { t: Ghost((ROUND_TRIP_TIMEOUT_MS * 1000) as nat) })) } else { cs(*old(self)).runtime.ping_timeout }),
+        (old(self).live && r is Err) ==> armed(cs(*final(self)).data.outbound, cs(*old(self)).data.outbound),
+        sd_frame(cs(*final(self)).data, cs(*old(self)).data)
+            && cs(*final(self)).data.pending_server_packet_ids@ == cs(*old(self)).data.pending_server_packet_ids@
+            && final(self).event == old(self).event,
+        conn_inv(*final(self)),
+{
+        if !self.live {
+            return Err(Error::Disconnected);
+        }
+        if let Err(err) = self.io.flush().await {
+
+            self.handle_disconnect();
+            return Err(Error::Transport(err));
+        }
+        self.complete_flush(packet, now);
+        Ok(())
+    }
+
+async fn perform_outbound_step(
+        &mut self,
+        step: OutboundStep,
+        now: Instant,
+    ) -> (r: Result<bool, Error<IoErr>>)
+    requires
+        conn_inv(*old(self)),
+        next_step_spec(cs(*old(self)).data.outbound) == Some(step),
+    ensures
+        !old(self).live ==> r is Err && final(self).io == old(self).io && *final(self).session == *old(self).session,
+        final(self).live ==> old(self).live,
+        match step_state(step) {
+            SendState::Write { written } => wire_ext(old(self).io.wire@, final(self).io.wire@, step_bytes(cs(*old(self)).data.outbound, step), written as int),
+            _ => final(self).io.wire@ == old(self).io.wire@,
+        },
+        final(self).io.wire@.len() > old(self).io.wire@.len() ==>
+            !too_large(cs(*old(self)).runtime.maximum_packet_size, step_bytes(cs(*old(self)).data.outbound, step).len() as usize),
+        r matches Err(e) ==> (e is Transport || e is Disconnected) ==> !final(self).live,
+        r matches Err(e) ==> (e is Transport || e is Disconnected || e is WriteZero || e == Error::<IoErr>::Resource(ResourceError::PacketTooLarge)),
+        r matches Err(e) ==> (e is WriteZero || e is Resource) ==> final(self).io.wire@ == old(self).io.wire@ && *final(self).session == *old(self).session && final(self).live == old(self).live,
+        r matches Ok(b) ==> b,
+        r is Ok ==> (match step_state(step) {
+            SendState::Write { written } => {
+                let d = final(self).io.wire@.len() - old(self).io.wire@.len();
+                let len = step_bytes(cs(*old(self)).data.outbound, step).len();
+                d >= 1 && (if written + d < len { written_upd(cs(*final(self)).data.outbound, cs(*old(self)).data.outbound, step_packet(step), (written + d) as usize, len as usize) }
+                 else { flushed_upd(cs(*final(self)).data.outbound, cs(*old(self)).data.outbound, step_packet(step)) })
+            },
+            _ => flushed_upd(cs(*final(self)).data.outbound, cs(*old(self)).data.outbound, step_packet(step)),
+        }),
+        sd_frame(cs(*final(self)).data, cs(*old(self)).data)
+            && cs(*final(self)).data.pending_server_packet_ids@ == cs(*old(self)).data.pending_server_packet_ids@
+            && final(self).event == old(self).event && final(self).io.inbound@ == old(self).io.inbound@,
+        conn_inv(*final(self)),
+{
+        proof { lemma_step_tracked(cs(*self).data.outbound, step); }
+        let ghost o0 = cs(*self).data.outbound;
+
+
+        let mut small_buf = [0u8; CONTROL_PACKET_LEN];
+        let runtime = &mut self.session.runtime;
+        let data = &mut self.session.data;
+        let prepared = match step {
+            OutboundStep::Control(step) => match step.state {
+                SendState::Write { written } => {
+
+                    let packet = (match serialize_control_packet(
+                        &mut small_buf,
+                        step.action,
+                        runtime.maximum_packet_size,
+                    ) { Ok(__v) => __v, Err(__e) => return Err(From::from(__e)) });
+                    PreparedStep::Write(WriteStep {
+                        packet: FlushedPacket::Control(step.action),
+                        bytes: packet,
+                        written,
+                        len: packet.len(),
+                    })
+                }
+                SendState::Flush => {
+
+                    PreparedStep::Flush(FlushedPacket::Control(step.action))
+                }
+                SendState::Sent => PreparedStep::Done,
+            },
+            OutboundStep::Release(step) => match step.state {
+                SendState::Write { written } => {
+
+                    let packet = (match serialize_pubrel(
+                        &mut small_buf,
+                        step.packet_id,
+                        step.reason,
+                        runtime.maximum_packet_size,
+                    ) { Ok(__v) => __v, Err(__e) => return Err(From::from(__e)) });
+                    PreparedStep::Write(WriteStep {
+                        packet: FlushedPacket::Release(step.packet_id),
+                        bytes: packet,
+                        written,
+                        len: packet.len(),
+                    })
+                }
+                SendState::Flush => {
+
+                    PreparedStep::Flush(FlushedPacket::Release(step.packet_id))
+                }
+                SendState::Sent => PreparedStep::Done,
+            },
+            OutboundStep::Retained(step) => match step.state {
+                SendState::Write { written } => {
+
+                    (match runtime.require_packet_size(step.len) { Ok(__v) => __v, Err(__e) => return Err(From::from(__e)) });
+                    PreparedStep::Write(WriteStep {
+                        packet: FlushedPacket::Retained(step.packet_id),
+                        bytes: data.outbound.retained_packet(step.offset, step.len),
+                        written,
+                        len: step.len,
+                    })
+                }
+                SendState::Flush => {
+
+                    PreparedStep::Flush(FlushedPacket::Retained(step.packet_id))
+                }
+                SendState::Sent => PreparedStep::Done,
+            },
+        };
+
+        let packet = match prepared {
+            PreparedStep::Write(packet) => packet,
+            PreparedStep::Flush(packet) => {
+                (match self.flush_current(packet, now).await { Ok(__v) => __v, Err(__e) => return Err(From::from(__e)) });
+                return Ok(true);
+            }
+            PreparedStep::Done => return Ok(false),
+        };
+
+        if !self.live {
+            return Err(Error::Disconnected);
+        }
+        let WriteStep {
+            packet,
+            bytes,
+            written,
+            len,
+        } = packet;
+        let count = match write_current(&mut self.io, &bytes[written..]).await {
+            Ok(count) => count,
+            Err(Error::Transport(err)) => {
+
+                self.handle_disconnect();
+                return Err(Error::Transport(err));
+            }
+            Err(err) => return Err(err),
+        };
+        let written = written + count;
+        self.set_written(packet, written, len);
+        let ghost o1 = cs(*self).data.outbound;
+        proof { lemma_written_then_flushed(o1, o1, o0, packet, written, len); }
+
+        if written < len {
+            return Ok(true);
+        }
+        (match self.flush_current(packet, now).await { Ok(__v) => __v, Err(__e) => return Err(From::from(__e)) });
+        proof { lemma_written_then_flushed(cs(*self).data.outbound, o1, o0, packet, written, len); }
+
+        Ok(true)
+    }
+}
+
+async fn write_current(connection: &mut VIo, bytes: &[u8]) -> (r: Result<usize, Error<IoErr>>)
+    ensures
+        r matches Ok(n) ==> 0 < n <= bytes@.len() && final(connection).wire@ == old(connection).wire@ + bytes@.subrange(0, n as int),
+        r is Err ==> final(connection).wire@ == old(connection).wire@,
+        r matches Err(e) ==> (e is WriteZero || e is Transport),
+        final(connection).ops@ == old(connection).ops@ + 1 && final(connection).inbound@ == old(connection).inbound@,
+{
+    match connection.write(bytes).await {
+        Ok(0) => {
+
+            Err(Error::WriteZero)
+        }
+        Ok(count) => Ok(count),
+        Err(err) => Err(Error::Transport(err)),
+    }
+}
+
+} // verus!
 
 fn main() {}
